@@ -11,7 +11,12 @@ EXPLANATION = (
     "ErrorKind to Error::new/for_app; the constructor->kind table is checked against the name-derived / documented table. "
     "R10.3: in Parser::verify_num_args every error constructor is guarded by the comparison that justifies it "
     "(operator and operand roles). R10.4: did_you_mean only returns strings taken from the iterated candidates and its "
-    "call sites pass iterators over defined names. NOT decided: that inputs breaking no rule are never rejected, nor "
+    "call sites pass iterators over defined names. R10.5 (necessary for `valid lines are not rejected` by the count check): "
+    "in Parser::parse the pending values of a positional are resolved before the next positional token unless that token "
+    "belongs to the same argument AND the argument is multi-valued (is_multiple_values_set) — pooling values of separate "
+    "occurrences of a single-valued positional would be counted as one occurrence by verify_num_args. R10.6 (sibling "
+    "agreement inside parse_short_arg): the allow_hyphen_values-positional shortcut fires on exactly the clusters the flag "
+    "loop would reject, i.e. when ANY character is not a defined short. NOT decided: that inputs breaking no rule are never rejected, nor "
     "that each runtime rejection names a rule really broken (needs execution over inputs)."
 )
 TRUSTED = ["rustc type-check + MIR construction (nightly)", "clapfacts driver", "lib/vset.py abstract interpreter",
@@ -175,3 +180,51 @@ def run(ctx):
             e = expr(bb, c.args[gi], 10)
             res.check(re.search(r"possible_val|get_possible_values|good_vals", e) is not None, "R10.4", "good-vals|%s" % bb.q, c.where(),
                       "good values = %s" % e, "invalid_value suggestions not drawn from possible values: %s" % e)
+
+
+    # ---- R10.5 pending positional values are resolved per occurrence unless (same arg && multi-valued)
+    pp = fx.body("clap_builder::parser::parser::Parser::parse")
+    posarg = r"get\(get_keymap\(self\.cmd\),pos_counter\)#Some\.0"
+    rps = [c for c in pp.calls_to(r"Parser::resolve_pending$") if any(re.match(r"^V1:get\(get_keymap\(self\.cmd\),pos_counter\)$", g) for g in guard_strs(pp, c.bb))
+           and not has_bool(pp, c.bb, "T", r"^is_last_set\(")]
+    cts = [c for c in pp.calls_to(r"Parser::check_terminator$") if re.search(posarg, expr(pp, c.args[1]))]
+    res.floor("R10.5", "resolve_pending in the positional branch of parse", len(rps), 1)
+    res.floor("R10.5", "check_terminator in the positional branch of parse", len(cts), 1)
+    if rps and cts:
+        R, CT = rps[0], cts[0]
+        skip = CT.bb in pp.reachable(0, without_blocks=(R.bb,))
+        mv = [c for c in pp.calls_to(r"Arg::is_multiple_values_set$") if re.search(posarg, expr(pp, c.args[0])) and pp.reaches(c.bb, CT.bb)]
+        ne = [c for c in pp.calls_to(r"PartialEq(<[^>]*>)?>?::(ne|eq)$") if any(re.search(r"^pending_arg_id\(", expr(pp, a)) for a in c.args) and pp.reaches(c.bb, CT.bb)]
+        okm = oke = False
+        for c in mv:
+            br = pp.call_branch(c)
+            if br and CT.bb not in pp.reachable(0, without_edge=(br[0], br[1]), without_blocks=(R.bb,)):
+                okm = True
+        for c in ne:
+            br = pp.call_branch(c)
+            keep = 2 if c.callee_q.endswith("::ne") else 1   # the edge on which `pending == this arg`
+            if br and CT.bb not in pp.reachable(0, without_edge=(br[0], br[keep]), without_blocks=(R.bb,)) and \
+                    any(re.search(r"get_id\(" + posarg, expr(pp, a)) for a in c.args):
+                oke = True
+        res.check(skip and okm and oke, "R10.5", "pending-resolved-per-occurrence", R.where(),
+                  "resolve_pending skipped only when pending_arg_id == arg.id && arg.is_multiple_values_set()",
+                  "a positional token reaches check_terminator/push without resolve_pending under a condition other than (same pending arg && is_multiple_values_set): "
+                  "skip-path exists=%s, requires multi-valued=%s, requires same arg=%s — values of separate occurrences are pooled and then rejected by the count check" % (skip, okm, oke))
+
+    # ---- R10.6 hyphen-value shortcut of parse_short_arg agrees with the flag loop (first unknown char => not a flag cluster)
+    ps = fx.body("clap_builder::parser::parser::Parser::parse_short_arg")
+    quant = [c for c in ps.calls_to(r"Iterator::(any|all)$") if re.search(r"short_arg", expr(ps, c.args[0]))
+             and any(tree_calls(cb, r"Command::contains_short$") for cb in closure_bodies(fx, c))]
+    res.floor("R10.6", "quantified contains_short test over the short cluster", len(quant), 1)
+    for c in quant:
+        cb = closure_bodies(fx, c)[0]
+        neg = expr(cb, 0).startswith("Not(")
+        nm = c.callee_q.rsplit("::", 1)[1]
+        # "some char is not a defined short"  ==  any(!contains)  ==  !all(contains)
+        br = ps.call_branch(c)
+        res.check((nm == "any" and neg) or (nm == "all" and not neg), "R10.6", "hyphen-shortcut-quantifier", c.where(),
+                  "shortcut tests whether some character is not a defined short (%s over %s)" % (nm, expr(cb, 0)[:50]),
+                  "the allow_hyphen_values shortcut tests `%s(%s)`: a cluster with one unknown character is no longer taken as a value although the flag loop rejects it at that character" % (nm, expr(cb, 0)[:60]))
+    # the flag loop: NoMatchingArg is produced on the first character for which contains_short/find fails
+    nm_ = [i for i, j, s_ in ps.stmts() if s_["k"] == "assign" and s_["rv"]["k"] == "agg" and s_["rv"].get("variant") == "NoMatchingArg"]
+    res.check(bool(nm_), "R10.6", "flag-loop-rejects-unknown-char", ps.where(), "flag loop returns NoMatchingArg at an unknown character", "flag loop no longer produces NoMatchingArg")
